@@ -16,6 +16,7 @@ from pyvc.unit import unit
 from pyvc.proxies import And, Or, Not, Implies
 
 LEVEL = "proof"
+STANDIN_ALWAYS_THOROUGH = True      # its large bound takes seconds: used at both tiers
 EXPLANATION = ("HTTP1Connection._read_message: exhaustive enumeration of the outcomes of every await and delegate call on the real async "
                "function (stream read fails / header or body timeout / delegate raises / body reader raises HTTPInputError or stream-closed / "
                "handler already finished / detach): on every exit a delegate that received headers gets exactly one of finish() and "
